@@ -956,6 +956,10 @@ func main() {
 	if c.Thorough() {
 		deepDepth = 5
 	}
+	gridPass()
+	if os.Getenv("VERIF_ONLY") == "grid" {
+		c.Finish("reader-grid pass only", false)
+	}
 	deepPass(deepDepth)
 	c.Set("deep_tree_alphabet", strings.Join(deepOps, ", "))
 	runLevels(2, 3)
